@@ -485,6 +485,92 @@ theorem stoiDigits_trailing (s : Bytes) (c : UInt8) (hc : ¬ (48 ≤ c ∧ c ≤
   · rfl
   · exact key _
 
+/-- a string that starts with white space is refused before anything else -/
+theorem stoi_space_head (c : UInt8) (r : Bytes) (h : isSpaceC c = true) : stoi (c :: r) = .error .cmdlineError := by
+  unfold stoi
+  simp only [h, if_true]
+
+theorem stoi_nil : stoi [] = .error .cmdlineError := by
+  unfold stoi
+  simp
+
+theorem stoi_plus_head (r : Bytes) : stoi (43 :: r) = stoiDigits r false := by
+  have f1 : isSpaceC 43 = false := by decide
+  unfold stoi stoiDigits
+  simp only [List.dropWhile_cons, f1, Bool.false_eq_true, if_false, beq_self_eq_true, if_true]
+
+theorem stoi_minus_head (r : Bytes) : stoi (45 :: r) = stoiDigits r true := by
+  have f1 : isSpaceC 45 = false := by decide
+  have f2 : ((45 : UInt8) == 43) = false := by decide
+  unfold stoi stoiDigits
+  simp only [List.dropWhile_cons, f1, f2, Bool.false_eq_true, if_false, beq_self_eq_true, if_true]
+
+theorem takeWhile_length_eq {α : Type} (p : α → Bool) (l : List α) (h : (l.takeWhile p).length = l.length) :
+    ∀ a ∈ l, p a = true := by
+  induction l with
+  | nil => intro a ha; cases ha
+  | cons b l ih =>
+    rw [List.takeWhile_cons] at h
+    cases hb : p b
+    · rw [hb] at h; simp at h
+    · rw [hb] at h
+      simp only [if_true, List.length_cons, Nat.add_right_cancel_iff] at h
+      intro a ha
+      rcases List.mem_cons.1 ha with rfl | ha
+      · exact hb
+      · exact ih h a ha
+
+/-- what `stoiDigits` accepts: a non-empty string of digits, the value within the 32-bit range -/
+theorem stoiDigits_ok_shape (s2 : Bytes) (neg : Bool) (n : Int) (h : stoiDigits s2 neg = .ok n) :
+    s2 ≠ [] ∧ (∀ c ∈ s2, 48 ≤ c ∧ c ≤ 57) ∧ -2147483648 ≤ n ∧ n ≤ 2147483647 := by
+  have key : ∀ v : Int, (if (s2.takeWhile (fun c => 48 ≤ c && c ≤ 57)).isEmpty = true then (.error .cmdlineError : Except Exn Int)
+      else if v < -2147483648 ∨ v > 2147483647 then .error .outOfRange
+      else if (s2.takeWhile (fun c => 48 ≤ c && c ≤ 57)).length ≠ s2.length then .error .cmdlineError else .ok v) = .ok n →
+      s2 ≠ [] ∧ (∀ c ∈ s2, 48 ≤ c ∧ c ≤ 57) ∧ -2147483648 ≤ n ∧ n ≤ 2147483647 := by
+    intro v h
+    by_cases hne : (s2.takeWhile (fun c => 48 ≤ c && c ≤ 57)).isEmpty = true
+    · rw [if_pos hne] at h; cases h
+    · rw [if_neg hne] at h
+      by_cases hr : v < -2147483648 ∨ v > 2147483647
+      · rw [if_pos hr] at h; cases h
+      · rw [if_neg hr] at h
+        by_cases hl : (s2.takeWhile (fun c => 48 ≤ c && c ≤ 57)).length ≠ s2.length
+        · rw [if_pos hl] at h; cases h
+        · rw [if_neg hl] at h
+          cases h
+          have hl : (s2.takeWhile (fun c => 48 ≤ c && c ≤ 57)).length = s2.length := by simpa using hl
+          refine ⟨?_, ?_, by omega, by omega⟩
+          · rintro rfl
+            simp at hne
+          · intro c hc
+            have := takeWhile_length_eq _ s2 hl c hc
+            simpa using this
+  exact key _ h
+
+/-- **what counts as a number for -F / -p**: an optional sign and then digits, at least one, nothing before (no white space: `std::stoi`
+    would skip it), nothing after; the value within the 32-bit range -/
+theorem stoi_ok_shape (v : Bytes) (n : Int) (h : stoi v = .ok n) :
+    ∃ sign ds, v = sign ++ ds ∧ (sign = [] ∨ sign = [43] ∨ sign = [45]) ∧ ds ≠ [] ∧ (∀ c ∈ ds, 48 ≤ c ∧ c ≤ 57) ∧
+      -2147483648 ≤ n ∧ n ≤ 2147483647 := by
+  cases v with
+  | nil => rw [stoi_nil] at h; cases h
+  | cons c r =>
+    cases hsp : isSpaceC c
+    · by_cases h43 : c = 43
+      · subst h43
+        rw [stoi_plus_head] at h
+        obtain ⟨h1, h2, h3⟩ := stoiDigits_ok_shape _ _ _ h
+        exact ⟨[43], r, rfl, .inr (.inl rfl), h1, h2, h3⟩
+      · by_cases h45 : c = 45
+        · subst h45
+          rw [stoi_minus_head] at h
+          obtain ⟨h1, h2, h3⟩ := stoiDigits_ok_shape _ _ _ h
+          exact ⟨[45], r, rfl, .inr (.inr rfl), h1, h2, h3⟩
+        · rw [stoi_digit_head c r hsp (by simpa using h43) (by simpa using h45)] at h
+          obtain ⟨h1, h2, h3⟩ := stoiDigits_ok_shape _ _ _ h
+          exact ⟨[], c :: r, rfl, .inl rfl, h1, h2, h3⟩
+    · rw [stoi_space_head c r hsp] at h; cases h
+
 /-! ### the option handler -/
 
 /-- `process_operand` -/
